@@ -23,7 +23,7 @@ META = {
         "C08.X1 nothing that can raise precedes the message_received hand-over in the protocol layer (uncatalogued S/F and malformed bodies must reach the handler)",
         "C08.C1 CallbackHandler: membership test and call use the same lookup (registered callback, else _on_<name> of the target)",
         "C08.G1 every message received while COMMUNICATING is handed to the callback dispatcher, unchanged and under no other condition (shared with C07.P1)",
-        "C08.S1 on the serial line a queued (reply) block is dequeued only when it is about to be transferred and is resolved exactly once (shared with C17.P2); HSMS frames are cut from the byte stream exactly (shared with C04.P1)",
+        "C08.S1 on the serial line a queued (reply) block is dequeued only when it is about to be transferred and is resolved exactly once (shared with C17.P2); HSMS frames are cut from the byte stream exactly (shared with C04.P1), the HSMS header is laid out and read back bit by bit (C04.B1), a reply is written completely or reported failed (C10.P1/P2)",
         "C08.R1 no request function leaves its response queue registered (a stale entry swallows a later primary carrying the same system bytes, which then gets no reply)",
     ],
     "does_not_decide": ["the content of the secondary beyond its class", "whether communication is established (C07.P1)"],
@@ -453,6 +453,13 @@ def run(ctx):
     from .c04 import check_framing
 
     report.share(ctx, "C08.S1", check_framing)
+    # ... its header is read back bit by bit as it was written (C04.B1: the stream and function the reply is derived from),
+    # and the reply is written to the socket completely or reported as failed (C10.P1/P2)
+    from .c04 import check_header
+    from .c10 import check_all_send_data
+
+    report.share(ctx, "C08.S1", check_header)
+    report.share(ctx, "C08.S1", check_all_send_data)
     # "while communication is established, each primary ... is answered": every message received in COMMUNICATING reaches the
     # callback dispatcher, unchanged and under no further condition (the gate rules of C07.P1)
     from .c07 import check_message_received
